@@ -858,7 +858,7 @@ def _snapshot(arr):
     return snap
 
 
-def _oracle_purity(S, extra):
+def _oracle_purity_impl(S, extra, step):
     """set_structure / get_structure are observers: the structure handed to the writer is bit-identical afterwards (also when
     the writer refuses it), exporting the same object again gives the file a fresh copy gives, and reading changes neither
     the file object nor the argument lists."""
@@ -874,10 +874,11 @@ def _oracle_purity(S, extra):
         return list(f.lines)
     with warnings.catch_warnings():
         warnings.simplefilter("ignore")
+        step[0] = "repeated-export"
         for seq in ((False, True), (True, False), (False, False), (True, True)):
             arr = build_array(S, extra)
             before = _snapshot(arr)
-            for step, h36 in enumerate(seq):
+            for stepno, h36 in enumerate(seq):
                 fresh = export(build_array(S, extra), h36)
                 got = export(arr, h36)
                 after = _snapshot(arr)
@@ -886,9 +887,10 @@ def _oracle_purity(S, extra):
                     return [(f"C07/purity/set_structure-mutates-input/{changed[0].split(':')[-1]}",
                              f"set_structure(hybrid36={h36}) changed {changed} of the structure it was given")]
                 if got != fresh:
-                    name = "+".join("hybrid36" if x else "classic" for x in seq[:step + 1])
+                    name = "+".join("hybrid36" if x else "classic" for x in seq[:stepno + 1])
                     return [(f"C07/purity/repeated-export-differs/{name}",
-                             f"export #{step + 1} of the same object ({name}) differs from the export of a fresh copy")]
+                             f"export #{stepno + 1} of the same object ({name}) differs from the export of a fresh copy")]
+        step[0] = "file-object-reuse"
         # one PDBFile object used again: set_structure(A), read, set_structure(B), read -- B must be read as from a fresh object
         n = len(S["atoms"])
         variants = []
@@ -927,6 +929,7 @@ def _oracle_purity(S, extra):
                     want = res[1] if isinstance(res[1], str) else f"coord shape {res[1][2]}"
                     return [("C07/purity/file-object-reuse/read",
                              f"after set_structure(A) + reads + set_structure(B) on one PDBFile, reading gives {what}; a fresh object gives {want}")]
+        step[0] = "read-purity"
         # reading
         f = PDBFile()
         try:
@@ -1015,7 +1018,7 @@ def _respell(arr, S, how, np):
     return a
 
 
-def _oracle_api(S, extra):
+def _oracle_api_impl(S, extra, step):
     """the same value in another spelling, every entry level and the less-used entry points of PDBFile / the pdb package"""
     import numpy as np
     import biotite.structure.io.pdb as pdb
@@ -1037,6 +1040,7 @@ def _oracle_api(S, extra):
                 ref = "ERR:" + type(e).__name__
             else:
                 ref = list(f0.lines)
+            step[0] = "writer-spelling"
             # --- 3. same value, another spelling (writer)
             for how in ("float32-annotations", "narrow-ints", "float-ints", "layout"):
                 for flag in (f["h36"], np.bool_(f["h36"]), int(f["h36"])):
@@ -1054,6 +1058,7 @@ def _oracle_api(S, extra):
                                  f"{got if isinstance(got, str) else 'another file'}, the plain spelling gives {ref if isinstance(ref, str) else 'a file'}")]
             if isinstance(ref, str):
                 return v
+            step[0] = "reader-entry"
             # --- 7./4. entry points and levels of the reader
             M, n = len(S["models"]), len(S["atoms"])
             text = "\n".join(ref) + "\n"
@@ -1077,6 +1082,7 @@ def _oracle_api(S, extra):
                 # order of extra_fields decides the order of the annotations only
                 if isinstance(got, str) or {k: got[k] for k in sorted(got)} != {k: want[k] for k in sorted(want)}:
                     return [(f"C07/api/reader-entry/{name}", f"reading through {name} differs from reading the text: {got if isinstance(got, str) else 'other content'}")]
+            step[0] = "copy"
             cp = f0.copy()
             cp.lines.append("REMARK   1 x")
             if list(f0.lines) != ref:
@@ -1084,11 +1090,14 @@ def _oracle_api(S, extra):
             fr = readers["stringio"]
             if not (pdb.get_model_count(fr) == fr.get_model_count() == M):
                 return [("C07/api/get_model_count", f"{pdb.get_model_count(fr)} / {fr.get_model_count()} for {M} models")]
+            step[0] = "get_structure"
             stack = fr.get_structure(extra_fields=fields)
+            step[0] = "get_coord"
             if fr.get_coord().tobytes() != stack.coord.tobytes() or fr.get_coord().shape != (M, n, 3):
                 return [("C07/api/get_coord", "get_coord() differs from get_structure().coord")]
             if fr.get_b_factor().shape != (M, n) or any(fr.get_b_factor()[m].tolist() != [float(np.float32(x)) for x in stack.b_factor] for m in range(M)):
                 return [("C07/api/get_b_factor", "get_b_factor() differs from the b_factor annotation")]
+            step[0] = "model-argument"
             for k in range(1, M + 1):
                 for kk in (k, k - M - 1):
                     for spelled in (kk, np.int64(kk), np.int8(kk), np.int32(kk)) + ((np.uint8(kk),) if kk > 0 else ()):
@@ -1096,12 +1105,14 @@ def _oracle_api(S, extra):
                         if one.coord.tobytes() != stack.coord[k - 1].tobytes() or fr.get_coord(model=spelled).tobytes() != stack.coord[k - 1].tobytes() \
                                 or fr.get_b_factor(spelled).tolist() != [float(np.float32(x)) for x in stack.b_factor]:
                             return [("C07/api/model-argument", f"model={spelled!r} ({type(spelled).__name__}) of {M} is not model {k}")]
+            step[0] = "extra_fields"
             for single in fields:
                 st1 = fr.get_structure(extra_fields=[single])
                 if getattr(st1, single).tolist() != getattr(stack, single).tolist():
                     return [("C07/api/extra_fields", f"extra_fields=[{single!r}] differs from asking for all four")]
             if fr.get_structure(extra_fields=None).get_annotation_categories() != fr.get_structure().get_annotation_categories():
                 return [("C07/api/extra_fields", "extra_fields=None differs from the default")]
+            step[0] = "refused-read"
             # --- 2. a refused call changes nothing
             lines0 = list(fr.lines)
             for bad in ({"model": 0}, {"model": M + 1}, {"model": -M - 1}, {"altloc": "bogus"}, {"extra_fields": ["bogus"]}, {"model": M + 1, "altloc": "all"}):
@@ -1113,6 +1124,7 @@ def _oracle_api(S, extra):
                     return [("C07/api/bad-argument-accepted", f"get_structure({bad}) did not raise")]
                 if list(fr.lines) != lines0 or _snapshot(fr.get_structure(extra_fields=fields)) != _snapshot(stack):
                     return [("C07/api/refused-read-changes-file", f"after the refused get_structure({bad}) the file reads differently")]
+            step[0] = "space-group"
             # --- space group of a written box
             if S.get("box") is not None and ref and ref[0].startswith("CRYST1"):
                 SG = namedtuple("SpaceGroupInfo", ["space_group", "z_val"])
@@ -1126,6 +1138,23 @@ def _oracle_api(S, extra):
                         or fr.get_structure().box.tobytes() != box0:
                     return [("C07/api/set_space_group", "set_space_group changes the box or the record length, or is not read back")]
     return v
+
+
+def _keyed(impl, area, S, extra):
+    """an exception escaping a sub-oracle is a verdict about the API step that raised it, with a key of its own"""
+    step = ["start"]
+    try:
+        return impl(S, extra, step)
+    except Exception as e:  # noqa: BLE001
+        return [(f"C07/{area}/{step[0]}/raised-{type(e).__name__}", f"{area} check, step {step[0]}: {type(e).__name__}: {str(e)[:200]}")]
+
+
+def _oracle_purity(S, extra):
+    return _keyed(_oracle_purity_impl, "purity", S, extra)
+
+
+def _oracle_api(S, extra):
+    return _keyed(_oracle_api_impl, "api", S, extra)
 
 
 def _oracle_refused_write(S, extra):
@@ -1189,7 +1218,10 @@ def _oracle_alt(case):
             want += [(r[0], r[1]) for r in run if keep is None or r[2] == " " or r[2] == keep]
         with warnings.catch_warnings():
             warnings.simplefilter("ignore")
-            st = _read_back(lines, False, altloc=mode)
+            try:
+                st = _read_back(lines, False, altloc=mode)
+            except Exception as e:  # noqa: BLE001
+                return [(f"C07/altloc/{mode}/raised-{type(e).__name__}", f"get_structure(altloc={mode!r}) on a well-formed file: {type(e).__name__}: {str(e)[:200]}")]
         got = [(int(i), str(nme)) for i, nme in zip(st.atom_id, st.atom_name)]
         if got != want or st.stack_depth() != case["alt"]["nm"]:
             v.append((f"C07/altloc/{mode}", f"altloc={mode!r} kept {got}, expected {want}"))
